@@ -1362,3 +1362,218 @@ Example C02_close_flag_after_fdt_still_interrupts :
   = ([POk; POk], [], [], [7], [EvBuilder 7 WStore; EvOpen (7, 0%nat) true; EvInterrupted (7, 0%nat)]).
 Proof. vm_compute. reflexivity. Qed.
 (* ===== end block: D44 ===== *)
+
+From FluteV Require Import Model.BlockEnc Spec.C07Spec Proofs.C01Full Proofs.C02Cenc.
+(* ===== block: C02Cenc ===== *)
+(* ---------------- CONTENT-ENCODED objects (Content-Encoding gzip / deflate / zlib), No-Code: Proofs/C02Cenc.v ----------------
+   The packets carry the transfer-encoded bytes [transfer] (Transfer-Length L = |transfer| > 0); the FDT entry carries
+   Content-Encoding ce <> null, the MD5 of the CONTENT (or none) and any Content-Length attribute (cenc_entry_for).
+   The block writer of the model hands the transfer bytes accumulated so far to the oracle e_inflate E ce acc finished
+   once per source block, in block order (finished = true with the last block), and writes what is new in its answer
+   (no write() call when nothing is new); the MD5 is taken over the final answer.
+   EXPLICIT, TRUSTED hypothesis on the oracle, inflate_oracle_on cut E ce transfer content: there is a monotone
+   dl : N -> N with dl 0 = 0 such that, fed the first a < L transfer bytes (a in [cut]) and not finished, the inflater
+   answers the first dl a bytes of the content, and fed everything and finished it answers the content.
+     inflate_oracle_ok     : cut = every prefix (a streaming decoder; independent of the partition);
+     inflate_oracle_blocks : cut = the block boundaries of the RFC 5052 partition of L (exactly the calls the model makes;
+                             the theorems assume this one, the weaker).
+   Premises otherwise those of C02_nocode_recoverable_delivers with [transfer] for the packets and L = |transfer| for the
+   limits (max_size_allocated bounds the TRANSFER length); [content] may be empty.
+   Content-Length: never read by the block writer of the model (bw_clen_left is only carried): the statement holds
+   whatever the attribute is - right, absent or wrong (C02_cenc_example_delivery).  [In blockwriter.rs the attribute
+   stops the output once that many bytes have been written; the model hides this inside the oracle.] *)
+Theorem C02_cenc_recoverable_delivers : forall E oti transfer content ce toi max fid files inst md5 clen pkts,
+  let L := lenN_ transfer in
+  nocode_ok oti L -> ce <> CNull -> cenc_entry_for files inst toi oti L ce md5 clen ->
+  inflate_oracle_blocks E ce oti transfer content ->
+  writer_accepts E toi -> writes_succeed E toi -> md5_good E content md5 ->
+  L <= max -> nb_blocks_of oti L <= 4097 ->
+  Forall (fun p => genuine_pkt oti transfer p = true) pkts ->
+  close_flag_ok oti L pkts ->
+  recoverable oti L pkts = true ->
+  let (o, c) := receive E fid files inst toi max pkts in
+  r_state o = Completed
+  /\ C02Full.ShapeDone content (toi, 0%nat) toi c
+  /\ forall m, complete_exact content (m, calls_of (toi, 0%nat) (c_log c)) = true
+                /\ P_C02_object (recoverable oti L pkts) content [(m, calls_of (toi, 0%nat) (c_log c))] = true.
+Proof. exact cenc_recoverable_delivers. Qed.
+Print Assumptions C02_cenc_recoverable_delivers.
+
+(* the hypothesis and the FDT entry, unfolded once *)
+Theorem C02_cenc_statements : forall cut E ce oti transfer content files inst toi L md5 clen a,
+  (inflate_oracle_on cut E ce transfer content <->
+     exists dl : N -> N,
+       dl 0 = 0 /\ (forall x y, x <= y -> dl x <= dl y)
+       /\ (forall a, cut a -> a < lenN_ transfer ->
+             e_inflate E ce (firstn (N.to_nat a) transfer) false = Some (firstn (N.to_nat (dl a)) content))
+       /\ e_inflate E ce transfer true = Some content)
+  /\ (inflate_oracle_ok E ce transfer content <-> inflate_oracle_on (fun _ => True) E ce transfer content)
+  /\ (inflate_oracle_blocks E ce oti transfer content <-> inflate_oracle_on (block_cut oti (lenN_ transfer)) E ce transfer content)
+  /\ (block_cut oti L a <->
+        let '(al, as_, nal, n) := partition_of oti L in exists s, s < n /\ a = N.min L (sym_off al as_ nal s * ro_e oti))
+  /\ (cenc_entry_for files inst toi oti L ce md5 clen <->
+        exists f, find (fun f => ff_toi f =? toi) files = Some f /\ ff_cenc f = ce
+                  /\ match ff_oti f with Some x => Some x | None => inst end = Some oti
+                  /\ ff_tlen f = L /\ ff_md5 f = md5 /\ ff_clen f = clen).
+Proof. intros. repeat split; intros H; exact H. Qed.
+Print Assumptions C02_cenc_statements.
+
+Theorem C02_cenc_streaming_decoder_suffices : forall E ce oti transfer content,
+  inflate_oracle_ok E ce transfer content -> inflate_oracle_blocks E ce oti transfer content.
+Proof. exact inflate_oracle_ok_blocks. Qed.
+Print Assumptions C02_cenc_streaming_decoder_suffices.
+
+(* non-vacuity: a toy content encoding (a 2-byte header, then the content; the decoder drops the header) satisfies the
+   stronger hypothesis for every content and header *)
+Theorem C02_cenc_oracle_hypothesis_satisfiable : forall ce h1 h2 content,
+  inflate_oracle_ok env_toy ce (h1 :: h2 :: content) content.
+Proof. exact toy_oracle_ok. Qed.
+Print Assumptions C02_cenc_oracle_hypothesis_satisfiable.
+
+(* the 5-byte object behind the header [31; 139]: 7 transfer bytes, E = 2, B = 2, blocks [31;139][1;2] and [3;4][5];
+   packets shuffled and duplicated; MD5 (toy digest = identity) of the content; Content-Length right / absent / wrong;
+   the theorem applies (exc_delivery_by_theorem).  With E = 1 the first block is the header alone: nothing new, no
+   write() call for it *)
+Example C02_cenc_example_delivery :
+  forallb (genuine_pkt ex_oti exc_transfer) exc_pkts = true
+  /\ recoverable ex_oti 7 exc_pkts = true
+  /\ summary 7 (receive env_toy 1 (exc_files CGzip (Some exc_content) (Some 5)) None 7 1000 exc_pkts)
+     = (Completed, [CallOpen true; CallWrite [1; 2] true; CallWrite [3; 4; 5] true; CallComplete])
+  /\ summary 7 (receive env_toy 1 (exc_files CZlib None None) None 7 1000 exc_pkts)
+     = (Completed, [CallOpen true; CallWrite [1; 2] true; CallWrite [3; 4; 5] true; CallComplete])
+  /\ summary 7 (receive env_toy 1 (exc_files CDeflate None (Some 1)) None 7 1000 exc_pkts)
+     = (Completed, [CallOpen true; CallWrite [1; 2] true; CallWrite [3; 4; 5] true; CallComplete])
+  /\ summary 7 (receive env_toy 1 [mk_ff 7 CGzip (Some exc1_oti) 7 None (Some 5) false] None 7 1000 exc1_pkts)
+     = (Completed, [CallOpen true; CallWrite [1; 2] true; CallWrite [3; 4] true; CallWrite [5] true; CallComplete]).
+Proof. vm_compute. repeat split. Qed.
+
+(* the MD5 of the FDT entry is that of the content: with the MD5 of the transfer bytes everything is written, then error();
+   the oracle hypothesis is needed: a decoder answering other bytes, no MD5: wrong bytes, Completed *)
+Example C02_cenc_guards :
+  summary 7 (receive env_toy 1 (exc_files CGzip (Some exc_transfer) (Some 5)) None 7 1000 exc_pkts)
+  = (Errored, [CallOpen true; CallWrite [1; 2] true; CallWrite [3; 4; 5] true; CallError])
+  /\ summary 7 (receive env_wrong 1 (exc_files CGzip None (Some 5)) None 7 1000 exc_pkts)
+     = (Completed, [CallOpen true; CallWrite [9; 9] true; CallWrite [9; 9; 9] true; CallComplete]).
+Proof. vm_compute. repeat split. Qed.
+
+(* the receiver level (recv_run from recv0 / ctx0), through the interface of Proofs/C02SessionRS.v (no change to it).
+   FDT first: the object is created from the FDT entry, whose Content-Encoding is the one applied; the EXT_CENC of the
+   object's packets is UNCONSTRAINED (absent, equal or different: ignored) *)
+Theorem C02_cenc_session_fdt_first_delivers :
+  forall E parse_fdt cfg oti transfer content ce toi md5 clen now pf id foti d inst pkts,
+  let L := lenN_ transfer in
+  nocode_ok oti L -> ce <> CNull -> toi <> 0 ->
+  fdt_pkt_ok pf id foti d -> parse_fdt d = Some inst -> fdt_live cfg inst pf now ->
+  cenc_entry_for (fi_files inst) (fi_oti inst) toi oti L ce md5 clen ->
+  inflate_oracle_blocks E ce oti transfer content ->
+  writer_accepts E toi -> writes_succeed E toi -> md5_good E content md5 ->
+  L <= cf_max_cache cfg -> nb_blocks_of oti L <= 4097 ->
+  Forall (fun p => a_toi p = toi) pkts ->
+  Forall (fun p => genuine_pkt oti transfer p = true) pkts ->
+  close_flag_ok oti L pkts ->
+  recoverable oti L pkts = true ->
+  let '(_, r, c) := recv_run E parse_fdt cfg recv0 (map (fun p => RvPush p now) (pf :: pkts)) ctx0 in
+  session_delivered cfg inst content toi r c.
+Proof. exact cenc_session_fdt_first_delivers. Qed.
+Print Assumptions C02_cenc_session_fdt_first_delivers.
+
+(* FDT late: pkts1 (EXT_FTI = (oti, L); EXT_CENC = cx, absent or equal to the entry's ce; any close-object flag) arrive
+   before the instance and are decoded without writer; the instance opens the writer and flushes through the inflater *)
+Theorem C02_cenc_session_fdt_late_delivers :
+  forall E parse_fdt cfg oti transfer content ce cx toi md5 clen now pf id foti d inst pkts1 pkts2,
+  let L := lenN_ transfer in
+  nocode_ok oti L -> ce <> CNull -> toi <> 0 ->
+  fdt_pkt_ok pf id foti d -> parse_fdt d = Some inst -> fdt_live cfg inst pf now ->
+  cenc_entry_for (fi_files inst) (fi_oti inst) toi oti L ce md5 clen ->
+  cx = None \/ cx = Some ce ->
+  inflate_oracle_blocks E ce oti transfer content ->
+  writer_accepts E toi -> writes_succeed E toi -> md5_good E content md5 ->
+  L <= cf_max_cache cfg -> nb_blocks_of oti L <= 4097 ->
+  Forall (fun p => a_toi p = toi) (pkts1 ++ pkts2) ->
+  Forall (fun p => genuine_pkt oti transfer p = true) (pkts1 ++ pkts2) ->
+  Forall (fun p => a_oti p = Some (oti, L) /\ a_cenc p = cx) pkts1 ->
+  close_flag_ok_after (recoverable oti L) pkts1 pkts2 ->
+  recoverable oti L (pkts1 ++ pkts2) = true ->
+  let '(_, r, c) := recv_run E parse_fdt cfg recv0 (map (fun p => RvPush p now) (pkts1 ++ pf :: pkts2)) ctx0 in
+  session_delivered cfg inst content toi r c.
+Proof. exact cenc_session_fdt_late_delivers. Qed.
+Print Assumptions C02_cenc_session_fdt_late_delivers.
+
+(* non-vacuity, receive-once: FDT first with the Content-Encoding in the FDT only / also in band / in band and
+   DISAGREEING (EXT_CENC = null on every packet: the FDT entry wins, the object is inflated); FDT late with EXT_FTI and
+   EXT_CENC = gzip, or no EXT_CENC, on the three early packets; both theorems apply (cenc_session_by_theorem) *)
+Example C02_cenc_session_example :
+  sess_env env_toy (txc_parse CGzip (Some exc_content)) (tx_cfg true false) (tx_fdt None :: exc_pkts)
+  = ([POk; POk; POk; POk; POk; POk], [], [7], [], cenc_log)
+  /\ sess_env env_toy (txc_parse CGzip (Some exc_content)) (tx_cfg true false)
+       (tx_fdt None :: map (with_ext None (Some CGzip)) exc_pkts)
+     = ([POk; POk; POk; POk; POk; POk], [], [7], [], cenc_log)
+  /\ sess_env env_toy (txc_parse CGzip (Some exc_content)) (tx_cfg true false)
+       (tx_fdt None :: map (with_ext None (Some CNull)) exc_pkts)
+     = ([POk; POk; POk; POk; POk; POk], [], [7], [], cenc_log)
+  /\ sess_env env_toy (txc_parse CGzip (Some exc_content)) (tx_cfg true false)
+       (map (with_ext (Some (ex_oti, 7)) (Some CGzip)) (firstn 3 exc_pkts) ++ tx_fdt None :: skipn 3 exc_pkts)
+     = ([POk; POk; POk; POk; POk; POk], [], [7], [], cenc_log)
+  /\ sess_env env_toy (txc_parse CGzip (Some exc_content)) (tx_cfg true false)
+       (map (with_ext (Some (ex_oti, 7)) None) (firstn 3 exc_pkts) ++ tx_fdt None :: skipn 3 exc_pkts)
+     = ([POk; POk; POk; POk; POk; POk], [], [7], [], cenc_log)
+  /\ cenc_log = [EvBuilder 7 WStore; EvOpen (7, 0%nat) true; EvWrite (7, 0%nat) [1; 2] true; EvWrite (7, 0%nat) [3; 4; 5] true;
+                 EvComplete (7, 0%nat)].
+Proof. vm_compute. repeat split. Qed.
+
+Example C02_cenc_session_by_theorem :
+  (let '(_, r, c) := recv_run env_toy (txc_parse CGzip (Some exc_content)) (tx_cfg true false) recv0
+                              (map (fun p => RvPush p 100%Z) (tx_fdt None :: exc_pkts)) ctx0 in
+   session_delivered (tx_cfg true false) (txc_inst CGzip (Some exc_content)) exc_content 7 r c)
+  /\ (let '(_, r, c) := recv_run env_toy (txc_parse CGzip (Some exc_content)) (tx_cfg true false) recv0
+                              (map (fun p => RvPush p 100%Z)
+                                   (map (with_ext (Some (ex_oti, 7)) (Some CGzip)) (firstn 3 exc_pkts) ++ tx_fdt None :: skipn 3 exc_pkts)) ctx0 in
+      session_delivered (tx_cfg true false) (txc_inst CGzip (Some exc_content)) exc_content 7 r c).
+Proof. exact cenc_session_by_theorem. Qed.
+
+(* EXT_CENC and the FDT entry DISAGREE, and a packet precedes the FDT instance: the packet's EXT_CENC wins (set_cenc_from_pkt
+   runs first; attach_fdt keeps a Content-Encoding that is already set).  EXT_CENC = null against Content-Encoding gzip: the
+   transfer-encoded bytes are written as they are - error() when the entry has the MD5 of the content, COMPLETED with the
+   header in front when it has none.  EXT_CENC = gzip against an entry without Content-Encoding: inflated, delivered *)
+Example C02_cenc_ext_cenc_before_fdt_wins :
+  sess_env env_toy (txc_parse CGzip (Some exc_content)) (tx_cfg true false)
+    (with_ext (Some (ex_oti, 7)) (Some CNull) (src_pkt 7 1 1 false [5]) :: tx_fdt None :: exc_pkts)
+  = ([POk; POk; POk; POk; POk; POk; POk], [], [], [7],
+     [EvBuilder 7 WStore; EvOpen (7, 0%nat) true; EvWrite (7, 0%nat) [31; 139; 1; 2] true; EvWrite (7, 0%nat) [3; 4; 5] true;
+      EvError (7, 0%nat)])
+  /\ sess_env env_toy (txc_parse CGzip None) (tx_cfg true false)
+       (with_ext (Some (ex_oti, 7)) (Some CNull) (src_pkt 7 1 1 false [5]) :: tx_fdt None :: exc_pkts)
+     = ([POk; POk; POk; POk; POk; POk; POk], [], [7], [],
+        [EvBuilder 7 WStore; EvOpen (7, 0%nat) true; EvWrite (7, 0%nat) [31; 139; 1; 2] true; EvWrite (7, 0%nat) [3; 4; 5] true;
+         EvComplete (7, 0%nat)])
+  /\ sess_env env_toy (txc_parse CNull (Some exc_content)) (tx_cfg true false)
+       (with_ext (Some (ex_oti, 7)) (Some CGzip) (src_pkt 7 1 1 false [5]) :: tx_fdt None :: exc_pkts)
+     = ([POk; POk; POk; POk; POk; POk; POk], [], [7], [], cenc_log).
+Proof. exact cenc_ext_cenc_before_fdt_wins. Qed.
+
+(* C01 corollary.  Compression is outside the sender model: the model is handed [transfer] - what compress(content)
+   returned: that is the oracle hypothesis - and sends it like any buffer (Model/BlockEnc.v).  One uninterrupted transfer
+   over the identity channel (wire_pkts of Proofs/C01Full.v), after any genuine flag-free packets, into a receiver whose
+   FDT entry carries the Content-Encoding: the CONTENT is delivered ([delivered] as in C01_clean_channel_nocode) *)
+Theorem C02_cenc_clean_channel :
+  forall rep raptor_src c transfer content ce oti E toi max fid files inst md5 clen pre,
+  c_fec c = NoCode -> filedesc_accepts c = true -> c_tlen c = lenN transfer -> 0 < c_tlen c ->
+  (1 <= c_window c)%nat -> c_e c < 65536 ->
+  oti_matches c oti -> ce <> CNull -> cenc_entry_for files inst toi oti (c_tlen c) ce md5 clen ->
+  inflate_oracle_blocks E ce oti transfer content ->
+  writer_accepts E toi -> writes_succeed E toi -> md5_good E content md5 ->
+  c_tlen c <= max -> nb_blocks_of oti (c_tlen c) <= 4097 ->
+  Forall (fun q => genuine_pkt oti transfer q = true) pre ->
+  Forall (fun q => a_close_obj q = false) pre ->
+  delivered E fid files inst toi max content (pre ++ wire_pkts rep raptor_src c transfer toi).
+Proof. exact cenc_clean_channel. Qed.
+Print Assumptions C02_cenc_clean_channel.
+
+Example C02_cenc_clean_channel_example :
+  map (fun p => (p_sbn p, p_esi p, p_payload p, p_close p)) (transfer_pkts no_rep no_rsrc exc_cfg exc_transfer)
+  = [(0, 0, [31; 139], false); (1, 0, [3; 4], false); (0, 1, [1; 2], false); (1, 1, [5], true)]
+  /\ summary 7 (receive env_toy 1 (exc_files CGzip (Some exc_content) (Some 5)) None 7 1000
+                  (wire_pkts no_rep no_rsrc exc_cfg exc_transfer 7))
+     = (Completed, [CallOpen true; CallWrite [1; 2] true; CallWrite [3; 4; 5] true; CallComplete]).
+Proof. exact cenc_clean_channel_example. Qed.
+(* ===== end block: C02Cenc ===== *)
